@@ -322,8 +322,9 @@ def native(tier, seed, bdir, only=None):
     jobs = [(k, f"native.multifield.{n}") for k, n in enumerate(names)]
     if only:
         jobs = [j for j in jobs if fnmatch.fnmatch(j[1], only)]
+    out_pr = [] if (only and not fnmatch.fnmatch("native.is_prime", only)) else primes_native(bdir)
     if not jobs:
-        return []
+        return out_pr
     os.makedirs(bdir, exist_ok=True)
     exe = os.path.join(bdir, "multifield_sweep")
     inc = ["-I/repo/src/Persistence_matrix/include", "-I/repo/src/Persistent_cohomology/include", "-I/repo/src/common/include"]
@@ -354,7 +355,32 @@ def native(tier, seed, bdir, only=None):
                 m["input_class"] = None
                 rec["failures"].append(m)
             out.append(rec)
-    return out
+    return out + out_pr
+
+
+def primes_native(bdir, unit="native.is_prime"):
+    """every copy of the primality test in /repo vs trial division, all n < 2^16 (exhaustive-native, bounded)"""
+    import json
+    os.makedirs(bdir, exist_ok=True)
+    exe = os.path.join(bdir, "primes_sweep")
+    inc = ["-I/repo/src/Persistence_matrix/include", "-I/repo/src/Ripser/include", "-I/repo/src/common/include"]
+    rc, o, e, s = sh(["g++", "-std=c++17", "-O1", "-w"] + inc + [os.path.join(VERIF, "native", "primes_sweep.cpp"), "-o", exe, "-lgmpxx", "-lgmp"], 600)
+    if rc != 0:
+        return [{"unit": unit, "status": "error", "notes": (o + e)[-1500:], "cases": 0, "failures": []}]
+    rc, o, e, secs = sh([exe], 600)
+    rec = {"unit": unit, "route": "B", "kind": "exhaustive-native", "status": "ok", "cases": 0, "failures": [], "seconds": round(secs, 2),
+           "bound": "n < 2^16 (and -70000 <= n < 0 for the signed copies)", "desc": "the six copies of the primality test (small multi-fields, GMP operators, ripser) vs trial division"}
+    try:
+        js = json.loads(o.strip().split("\n")[-1])
+        rec["cases"] = rec["obligations"] = js["checked"]
+        for m in js["first"]:
+            m["id"] = f"case{len(rec['failures'])}"
+            m["input_class"] = None
+            rec["failures"].append(m)
+    except (ValueError, IndexError):
+        rec["status"] = "error"
+        rec["notes"] = f"native run failed rc={rc}: {(o + e)[-600:]}"
+    return [rec]
 
 
 def _num(v):
